@@ -46,9 +46,10 @@ class BoxCommand(Command):
     args = 'self'
     mathMode = False
     def parse(self, tex):
-        MathShift.inEnv.append(None)
+        inEnv = self.ownerDocument.userdata.setdefault('mathshift-inenv', [])
+        inEnv.append(None)
         Command.parse(self, tex)
-        MathShift.inEnv.pop()
+        inEnv.pop()
         return self.attributes
 
 class hbox(BoxCommand): pass
@@ -64,7 +65,6 @@ class MathShift(Command):
 
     """
     macroName = 'active::$'
-    inEnv = []
 
     def invoke(self, tex):
         r"""
@@ -73,7 +73,8 @@ class MathShift(Command):
         account \mbox{}es.
 
         """
-        inEnv = type(self).inEnv
+        # Open math shifts and boxes are tracked per document
+        inEnv = self.ownerDocument.userdata.setdefault('mathshift-inenv', [])
 
         current = self.ownerDocument.createElement('math')
         for t in tex.itertokens():
